@@ -63,6 +63,11 @@ def _subs(tier):
         S.append(_mk('split-resources', 'split', resources2(2), [('a', 0, 3 * T)], zero=['cs', 'c0']))
         S.append(_mk('twice-merge-n3', 'twice', dict(MERGE, devices=[dict(MERGE['devices'][0], parts=3)] + MERGE['devices'][1:]),
                      [('off', 0, 10 ** 6)], zero=[]))
+    # default names (Source_<id> ...): the second run starts at id 9998, so that two devices get ids 9999 and 10000
+    dn = {'devices': [dict(d, default_name=True) for d in MERGE['devices']]}
+    sub = _mk('twice-merge-default-names-id-9999-10000', 'twice', dn, [], zero=['cs'])
+    sub['shape']['off'] = 9998
+    S.append(sub)
     for n in ([2, 3] if q else [1, 2, 3]):
         for mp in [0, 1, 2, None]:
             sub = {'name': f'multi-n{n}-mp{mp}', 'shape': {'mode': 'multi', 'n': n, 'mp': mp}, 'params': [['c1', 1, T]],
@@ -117,9 +122,10 @@ class _Replay:
 
 def _snapshot(world):
     data = {}
+    keyof = {world.dev[k].name: k for k in world.order}
     for label, table in world.env.simulation_data.items():
         for name, recs in table.items():
-            data[(label, name)] = [tuple(r) for r in recs]
+            data[(label, keyof.get(name, name))] = [tuple(r) for r in recs]
     state = {}
     for n in world.order:
         d, k = world.dev[n], world.kind[n]
@@ -183,13 +189,14 @@ def run(shape, args, ctx):
         base = ctx.rng
         weights = list(base.handed)
         # tie-breaks decided something iff two events of one instant had equal priority; a merge topology makes that likely
-        Asset._id_counter = args['off']
+        Asset._id_counter = shape['off'] if 'off' in shape else args['off']
         System._instance = None
         ctx.rng = _Replay(weights, base)
         w2 = _run_model(ctx, spec, args, [10 ** 7], hash_order='desc')     # another memory layout (S10)
         s2 = _snapshot(w2)
         ctx.rng = base
-        _compare(ctx, s1, s2, z(args['off']), 'second run with the same weights differs (beyond asset-id numbering)')
+        _compare(ctx, s1, s2, z(shape['off'] if 'off' in shape else args['off']),
+                 'second run with the same weights differs (beyond asset-id numbering)')
         ctx.goal('second_run_matched')
         with ctx.notrace():
             # two hand-over attempts competed within one instant: the weights decided who went first
